@@ -194,9 +194,12 @@ func c10CheckDec(c c10DecCase) h.Result {
 		if !d2.OK || !d2.P.Equal(di.P) {
 			r.Fail("CompressedEdwardsY.UnmarshalBinary:wrong-point", "in=%x stored=%x", in, cu[:])
 		}
+		// MarshalBinary of the compressed form: the same point again (its doc
+		// comment promises canonical output, the code returns the stored
+		// spelling; either is accepted here)
 		mb, err := cu.MarshalBinary()
-		if err != nil || !bytes.Equal(mb, cu[:]) {
-			r.Fail("CompressedEdwardsY.MarshalBinary:wrong", "stored=%x out=%x err=%v", cu[:], mb, err)
+		if d3 := ref.Decode(mb); err != nil || !d3.OK || !d3.P.Equal(di.P) {
+			r.Fail("CompressedEdwardsY.MarshalBinary:wrong-point", "stored=%x out=%x err=%v", cu[:], mb, err)
 		}
 	} else if !bytes.Equal(cu[:], c10IdentityBytes) {
 		r.Fail("CompressedEdwardsY.UnmarshalBinary:receiver-not-identity-on-error", "in=%x receiver=%x", in, cu[:])
